@@ -7,6 +7,7 @@
 mod util;
 mod reloc;
 mod asm;
+mod conc;
 
 use std::io::{self, BufRead, Write};
 
@@ -17,6 +18,10 @@ fn main() {
     std::panic::set_hook(Box::new(|_| {}));
     match mode {
         "exec" => exec(),
+        "conc" => {
+            let k: usize = args.get(2).and_then(|s| s.parse().ok()).unwrap_or(usize::MAX);
+            conc::run(k, args.get(3).map(|s| s.as_str()).unwrap_or("none"));
+        }
         other => {
             eprintln!("unknown mode {other}");
             std::process::exit(2);
